@@ -339,6 +339,19 @@ def _post_pair(I, st, args, ret, out):
         rel_pair(I, st, p, args[0].n, out)
 
 
+def _post_pair_ranker(I, st, args, ret, out):
+    """Pair::new / with_ranker: None exactly when the needle has fewer than 2 bytes; offsets at most 254"""
+    p = _ret_some(ret)
+    n = args[0].n
+    if p is None:
+        out.append(Fact((), ('le', n - 1), 'None => needle.len() < 2'))
+        return
+    rel_pair(I, st, p, n, out)
+    out.append(Fact((), ('le', C(2) - n), 'Some => needle.len() >= 2'))
+    for k in (0, 1):
+        out.append(Fact((), ('le', p.fields[k].e - 254), f'Some => index{k + 1} <= 254'))
+
+
 def _post_packed(I, st, args, ret, out):
     f = _ret_some(ret)
     if f is not None:
@@ -401,7 +414,8 @@ _ARCH = r'(all|x86_64::sse2|x86_64::avx2|aarch64::neon|wasm32::simd128)'
 POST_TABLE = [
     (re.compile(r'^arch::all::twoway::Finder::new$'), _post_tw_fwd),
     (re.compile(r'^arch::all::twoway::FinderRev::new$'), _post_tw_rev),
-    (re.compile(r'^arch::all::packedpair::Pair::(new|with_ranker(::<.*>)?|with_indices)$'), _post_pair),
+    (re.compile(r'^arch::all::packedpair::Pair::(new|with_ranker(::<.*>)?)$'), _post_pair_ranker),
+    (re.compile(r'^arch::all::packedpair::Pair::with_indices$'), _post_pair),
     (re.compile(r'^arch::' + _ARCH + r'::packedpair::Finder::(new|with_pair)$'), _post_packed),
     # index results (assumed where the function is cut, proved at its own root)
     (re.compile(r'^memchr::memr?chr$'), _post_index(1, _n_one, _INB)),
@@ -717,3 +731,117 @@ def check_domain(I, inst, vname, results):
     live = [1 for st, _ in results if st.store.is_sat() and st.store.check_sat()]
     I.ob('DOC-PANIC', fr, inst.loc, 'outside the documented domain the call panics (no normal return)', not live,
          '' if not live else f'{len(live)} path(s) return normally although haystack.len() < min_haystack_len()')
+
+
+# ------------------------------------------------------------------ C19: exactness of pair selection / accessors
+def _ent(st, atom):
+    return entails(st, atom)
+
+
+def _spec_ranker(I, st, args, ret):
+    """Pair::new / with_ranker: None exactly when the needle has fewer than 2 bytes; offsets at most 254"""
+    n = args[0].n if isinstance(args[0], SliceV) else None
+    if n is None or not isinstance(ret, AdtV) or ret.variant is None:
+        return [('result and needle tracked', False, 'Option variant / needle length not tracked')]
+    if ret.variant == 0:
+        ok = _ent(st, ('le', n - 1))
+        return [('None => needle.len() < 2', ok, '' if ok else f'None returned although needle.len() <= 1 is not entailed (n = {st.store.nf(n)})')]
+    p = ret.fields[0]
+    out = [('Some => needle.len() >= 2', _ent(st, ('le', C(2) - n)), '')]
+    for k in (0, 1):
+        x = p.fields[k]
+        ok = isinstance(x, IntV) and _ent(st, ('le', x.e - 254))
+        out.append((f'Some => index{k + 1} <= 254', ok, '' if ok else f'index{k + 1} = {x}'))
+    return out
+
+
+def _spec_indices(I, st, args, ret):
+    """Pair::with_indices(needle, i1, i2): accepts exactly the distinct in-range pairs, and returns them unchanged"""
+    if not (isinstance(args[0], SliceV) and isinstance(args[1], IntV) and isinstance(args[2], IntV) and isinstance(ret, AdtV) and ret.variant is not None):
+        return [('result and arguments tracked', False, 'not tracked')]
+    n, i1, i2 = args[0].n, args[1].e, args[2].e
+    if ret.variant == 0:
+        reasons = [('eq', i1 - i2), ('le', n - i1), ('le', n - i2)]
+        ok = any(_ent(st, r) for r in reasons)
+        return [('None => index1 == index2, or an index is outside the needle', ok, '' if ok else 'None returned on a path where the pair is not known to be invalid')]
+    p = ret.fields[0]
+    ok = all(isinstance(p.fields[k], IntV) for k in (0, 1)) and _ent(st, ('eq', p.fields[0].e - i1)) and _ent(st, ('eq', p.fields[1].e - i2))
+    return [('Some => the pair holds exactly the offsets given', ok, '' if ok else f'pair {p} vs ({st.store.nf(i1)}, {st.store.nf(i2)})')]
+
+
+def _find_pairs(I, v, out, depth=0):
+    if depth > 4 or not isinstance(v, AdtV) or v.fields is None:
+        return
+    if tpath(I, v) == PAIR:
+        out.append(v)
+        return
+    for f in v.fields:
+        _find_pairs(I, f, out, depth + 1)
+
+
+def _spec_with_pair(I, st, args, ret):
+    """packedpair::Finder::with_pair(needle, pair): the finder built reports the pair it was given"""
+    if not (isinstance(ret, AdtV) and ret.variant is not None):
+        return [('result tracked', False, 'Option variant not tracked')]
+    if ret.variant == 0:
+        return []
+    ps = []
+    _find_pairs(I, ret.fields[0], ps)
+    given = args[1]
+    ok = bool(ps) and all(isinstance(p.fields[k], IntV) and isinstance(given.fields[k], IntV) and _ent(st, ('eq', p.fields[k].e - given.fields[k].e))
+                          for p in ps for k in (0, 1))
+    return [('Some(finder) => every pair stored in the finder is the pair given', ok, '' if ok else f'{len(ps)} stored pair(s) {ps} vs given {given}')]
+
+
+def _spec_pair_accessor(I, st, args, ret):
+    """Finder::pair(&self) returns a reference to a pair stored in self that equals the stored pair"""
+    f = follow(I, st, args[0])
+    p = follow(I, st, ret)
+    ps = []
+    _find_pairs(I, f, ps)
+    ok = tpath(I, p) == PAIR and bool(ps) and all(isinstance(p.fields[k], IntV) and _ent(st, ('eq', p.fields[k].e - ps[0].fields[k].e)) for k in (0, 1))
+    return [('pair() returns the stored pair', ok, '' if ok else f'returned {p}, stored {ps[:1]}')]
+
+
+def _spec_index_accessor(k):
+    def f(I, st, args, ret):
+        p = follow(I, st, args[0])
+        ok = tpath(I, p) == PAIR and isinstance(ret, IntV) and isinstance(p.fields[k], IntV) and _ent(st, ('eq', ret.e - p.fields[k].e))
+        return [(f'index{k + 1}() returns the stored offset', ok, '' if ok else f'returned {ret}, stored {p}')]
+    return f
+
+
+def _spec_min_len(I, st, args, ret):
+    f = follow(I, st, args[0])
+    m = pp_min_len(I, st, f)
+    ok = m is not None and isinstance(ret, IntV) and _ent(st, ('eq', ret.e - m))
+    return [('min_haystack_len() returns the stored minimum of the first vector finder', ok, '' if ok else f'returned {ret}')]
+
+
+SPEC_TABLE = [
+    (re.compile(r'^arch::all::packedpair::Pair::with_indices$'), _spec_indices),
+    (re.compile(r'^arch::' + _ARCH + r'::packedpair::Finder::with_pair$'), _spec_with_pair),
+    (re.compile(r'^arch::' + _ARCH + r'::packedpair::Finder::pair$'), _spec_pair_accessor),
+    (re.compile(r'^arch::all::packedpair::Pair::index1$'), _spec_index_accessor(0)),
+    (re.compile(r'^arch::all::packedpair::Pair::index2$'), _spec_index_accessor(1)),
+    (re.compile(r'^arch::(x86_64::sse2|x86_64::avx2|aarch64::neon|wasm32::simd128)::packedpair::Finder::min_haystack_len$'), _spec_min_len),
+]
+
+
+def check_spec_post(I, inst, results, args):
+    row = lookup(SPEC_TABLE, inst.path)
+    if not row:
+        return
+    fr = _Fr(inst)
+    seen_variants = set()
+    for st, ret in results:
+        if not (st.store.is_sat() and st.store.check_sat()):
+            continue
+        if isinstance(ret, AdtV) and ret.variant is not None:
+            seen_variants.add(ret.variant)
+        try:
+            items = row[1](I, st, args, ret)
+        except (AttributeError, TypeError, IndexError) as e:
+            items = [('values tracked', False, f'{type(e).__name__}: {e}')]
+        for label, ok, det in items:
+            I.ob('SPEC-POST', fr, inst.loc, label, ok, det)
